@@ -273,12 +273,6 @@ Proof.
   - destruct t; try discriminate; cbn in *; split; auto; lia.
 Qed.
 
-(* run a schedule of component steps, each of which must be enabled *)
-Fixpoint urun_sys (tracked : bool) (sched : list uact) (s : ustate) : option ustate :=
-  match sched with
-  | [] => Some s
-  | a :: r => if usys a && uenabled a s then urun_sys tracked r (ustep tracked a s) else None
-  end.
 
 Lemma urun_sys_run : forall tracked sched s s', urun_sys tracked sched s = Some s' -> s' = urun tracked sched s.
 Proof.
@@ -477,11 +471,6 @@ Proof.
   - destruct t; try discriminate; cbn in *; destruct fixed; cbn; split; auto; lia.
 Qed.
 
-Fixpoint hrun_sys (fixed : bool) (sched : list hact) (s : hstate) : option hstate :=
-  match sched with
-  | [] => Some s
-  | a :: r => if hsys a && henabled a s then hrun_sys fixed r (hstep fixed a s) else None
-  end.
 
 Lemma http_stop_bounded : forall fixed sched s s',
   h_shutdown s = true -> hrun_sys fixed sched s = Some s' -> length sched + hmeasure s' <= hmeasure s.
@@ -645,13 +634,12 @@ Section RunP.
     run_stop D empty false [] [] [] r = (MkR false None, None, false).
   Proof. reflexivity. Qed.
 
-  Definition serving (r : runst D) : Prop := r_up r = true /\ exists p, r_store r = Some p /\ p_closed p = false.
 
-  Lemma reload_noop : forall r, serving r -> reload D empty [] [] r = Some r.
+  Lemma reload_noop : forall r, serving D r -> reload D empty [] [] r = Some r.
   Proof. intros [up st] (U & p & S & C). cbn in *. subst. reflexivity. Qed.
 
-  Lemma serve_req_serving : forall r q, serving r ->
-    serving (fst (serve_req D Req Resp handle r q)) /\ exists a, snd (serve_req D Req Resp handle r q) = Answer a.
+  Lemma serve_req_serving : forall r q, serving D r ->
+    serving D (fst (serve_req D Req Resp handle r q)) /\ exists a, snd (serve_req D Req Resp handle r q) = Answer a.
   Proof.
     intros [up st] q (U & [c d] & S & C). cbn in *. subst. unfold serve_req. cbn.
     destruct (handle d q) as [d' a]. cbn. split; eauto. split; auto.
@@ -659,7 +647,7 @@ Section RunP.
   Qed.
 
   (* a reload at ANY point of ANY request history changes no answer and no contents *)
-  Lemma reload_transparent : forall es r, serving r ->
+  Lemma reload_transparent : forall es r, serving D r ->
     run_events D Req Resp handle empty es r = run_events D Req Resp handle empty (requests_of Req es) r.
   Proof.
     induction es as [|[q|] es IH]; intros r S; cbn [run_events requests_of filter]; auto.
@@ -669,12 +657,12 @@ Section RunP.
     - rewrite reload_noop by auto. apply IH, S.
   Qed.
 
-  Lemma start_serving : serving (run_start D empty None).
+  Lemma start_serving : serving D (run_start D empty None).
   Proof. split; cbn; eauto. Qed.
 
   (* ... and every request of the history is answered (no store panic, no refusal) *)
-  Lemma reload_history_all_answered : forall es r, serving r ->
-    exists rf os, run_events D Req Resp handle empty es r = Some (rf, os) /\ serving rf /\
+  Lemma reload_history_all_answered : forall es r, serving D r ->
+    exists rf os, run_events D Req Resp handle empty es r = Some (rf, os) /\ serving D rf /\
                   Forall (fun o => exists a, o = Answer a) os.
   Proof.
     induction es as [|[q|] es IH]; intros r S; cbn [run_events].
@@ -697,3 +685,30 @@ Example reload_example :
   run_events nat nat nat (fun d q => (d + q, d + q)) 0 [EReq 1; EReq 2; EReload; EReq 3; EReload; EReload; EReq 4] (run_start nat 0 None)
   = Some (MkR true (Some (MkP false 10)), [Answer 1; Answer 3; Answer 6; Answer 10]).
 Proof. reflexivity. Qed.
+
+(* the hypotheses of the quiescence theorems are satisfiable: schedules with
+   traffic and a pending hook under which the fixed protocols deliver *)
+Example udp_stop_reachable :
+  let s := urun true [UServe; UServe; UPacket; UServe; UHandler true; UStop; UStop; UStop; UStop; UServe; UServe;
+                      UStop; UHook; UStop; UStop] uinit in
+  u_stop s = TDone /\ u_quiescent s.
+Proof. vm_compute. intuition congruence. Qed.
+
+Example http_stop_reachable :
+  let s := hrun true [HServe; HConn; HServe; HHandler true; HStop; HStop; HStop; HStop; HServe; HStop; HHook; HStop] (hinit true) in
+  h_stop s = HTDone /\ h_quiescent s.
+Proof. vm_compute. intuition congruence. Qed.
+
+(* Stop racing with start-up under the fixed HTTP protocol: delivered only after the
+   serving goroutine has closed the listener *)
+Example http_stop_races_startup :
+  h_stop (hrun true [HStop; HStop; HStop; HStop] (hinit true)) = HTWait /\
+  let s := hrun true [HStop; HStop; HStop; HStop; HServe; HStop] (hinit true) in
+  h_stop s = HTDone /\ h_lopen s = false.
+Proof. vm_compute. auto. Qed.
+
+Example store_stop_reachable :
+  let s := srun true (map AU [UServe; UServe; UPacket; UServe; UHandler true; UStop; UStop; UStop; UServe; UServe; UHook; UStop; UStop]
+                      ++ map AH [HStop; HStop; HStop; HServe; HStop] ++ [AStopStore]) (sysinit true) in
+  sy_closed s = true /\ sy_panic s = false.
+Proof. vm_compute. auto. Qed.
